@@ -74,6 +74,7 @@ def run_compact(cfg):
 
     def body():
         c = Ctx.cur
+        fc.reset_class_state(ns)
         l, m, r = z3.Reals('l m r')
         span = 4 if cls != 'Fbank' else 2      # Fbank: every bin adds log/exp axiom instances (mel), keep the filter narrow
         c.assume(0 <= l, l < m, m < r, r <= rate / 2, (r - l) * width <= span * rate)
@@ -188,12 +189,25 @@ GV = z3.Function('SUMMAND', R, R)       # value of one summand (Gaussian / gamma
 
 class WNP(fc.FNP):
     @staticmethod
-    def exp(v):
+    def exp(v, out=None):
         if isinstance(v, SReal):
             return SReal(GV(rv(v)))
         if isinstance(v, ND):
-            return v._bin(0, lambda a, _b: GV(a))      # element-wise (a vectorised response loop)
+            r = v._bin(0, lambda a, _b: GV(a))      # element-wise (a vectorised response loop)
+            if out is not None:
+                out[...] = r
+                return out
+            return r
         return fc.FNP.exp(v)
+
+    @staticmethod
+    def arange(a, b=None, dtype=None):
+        # always the lazy array here: the closed-form responses of this harness are functions of array terms
+        if b is None:
+            a, b = 0, a
+        az, bz = _z(a), _z(b)
+        n = conc(SInt(z3.simplify(z3.If(bz - az > 0, bz - az, 0))))
+        return ND.fresh((n,), lambda idx: z3.ToReal(az + idx[0]), 'f8')
 
     @staticmethod
     def linspace(a, b, num=50, endpoint=True, dtype=None):
@@ -203,14 +217,6 @@ class WNP(fc.FNP):
         if den <= 0:
             return ND.fresh((n,), lambda idx: az, 'f8')
         return ND.fresh((n,), lambda idx: az + z3.ToReal(idx[0]) * (bz - az) / den, 'f8')
-
-    @staticmethod
-    def arange(a, b=None, dtype=None):
-        if b is None:
-            a, b = 0, a
-        az, bz = _z(a), _z(b)
-        n = conc(SInt(z3.simplify(z3.If(bz - az > 0, bz - az, 0))))
-        return ND.fresh((n,), lambda idx: z3.ToReal(az + idx[0]), 'f8')
 
 
 def _mk_bank(ns, cls, tag=''):
@@ -246,6 +252,7 @@ def run_window(cfg):
 
     def body():
         c = Ctx.cur
+        fc.reset_class_state(ns)
         b, xi, lo, hi, wrap = _mk_bank(ns, cls)
         if cls == 'GaborFilterBank':
             b._scale_l2_norm = decide(z3.Bool('scale_l2_norm'))       # both normalisations
@@ -325,7 +332,7 @@ def _apps(terms, name):
 
 
 def _wm(m):
-    return dict(xi=_fv(m, 'xi'), lowest_ang=_fv(m, 'lowest_ang'), highest_ang=_fv(m, 'highest_ang'), wrap=_fv(m, 'wrap_support_ang'))
+    return dict(l2=z3.is_true(m.eval(z3.Bool('scale_l2_norm'), model_completion=True)), xi=_fv(m, 'xi'), lowest_ang=_fv(m, 'lowest_ang'), highest_ang=_fv(m, 'highest_ang'), wrap=_fv(m, 'wrap_support_ang'))
 
 
 # ------------------------------------------------------------------ purity of the response methods
@@ -346,6 +353,7 @@ def run_pure(cfg):
 
         def body():
             c = Ctx.cur
+            fc.reset_class_state(ns)
 
             def mk():
                 if cls in ('TriangularOverlappingFilterBank', 'Fbank'):
@@ -408,6 +416,7 @@ def run_half(cfg):
 
     def body():
         c = Ctx.cur
+        fc.reset_class_state(ns)
         b, xi, lo, hi, wrap = _mk_bank(ns, cls)
         c.assume((hi - lo) * 65 <= 2 * rv(2 * math.pi), lo >= rv(-math.pi), hi <= rv(2 * math.pi))
         try:
@@ -519,8 +528,13 @@ def replay(w):
             return {'reproduced': False, 'detail': 'half responses equal the leading bins on real banks'}
         if k == 'compact':
             verts = (w['l'], w['m'], w['r'])
-            b = fc.real_handbuilt(C, _rate=8000, _analytic=w['analytic'], _vertices=verts)
             width = w['width']
+            # as in the obligation: another bank of the class (other vertices, other sampling rate) is queried first
+            decoy = fc.real_handbuilt(C, _rate=16000, _analytic=w['analytic'], _vertices=(310.0, 1000.0 + 2000.0 / width, 1900.0 + 6000.0 / width))
+            decoy.get_truncated_response(0, width)
+            decoy.get_frequency_response(0, width)
+            decoy.get_frequency_response(0, width, half=True)
+            b = fc.real_handbuilt(C, _rate=8000, _analytic=w['analytic'], _vertices=verts)
             bi, tr, full = _rebuild(b, 0, width)
             ref = b.get_frequency_response(0, width)
             half = b.get_frequency_response(0, width, half=True)
@@ -532,7 +546,8 @@ def replay(w):
             # scan real banks whose supports sit at the witness position relative to the DFT grid
             for sc in ('mel', 'bark'):
                 for low in (20.0, 300.0):
-                    b = C(sc, num_filts=7, low_hz=low, sampling_rate=8000)
+                    kw = dict(scale_l2_norm=True) if (w.get('l2') and w['cls'] == 'GaborFilterBank') else {}
+                    b = C(sc, num_filts=7, low_hz=low, sampling_rate=8000, **kw)
                     for width in sorted(set([w['width'], 8, 9, 64, 127, 512])):
                         for i in range(b.num_filts):
                             bi, tr, full = _rebuild(b, i, width)
